@@ -11,6 +11,18 @@ CHECKS = {
    text="Exhaustive TLC exploration of the map loop's design (every wake-up content and iteration order, retries, backups, batching, N<=4-5) plus thousands of recorded executions of the real function, each judged clause by clause by the TLA+ monitor. Right level: the property is about interleavings of completions, which TLC enumerates and the virtual-time loop realises deterministically.",
    note="Trusted: TLC; the virtual-time event loop and scripted futures as a faithful stand-in for a thread pool; tenacity's Retrying is exercised for real. Bounds: N<=5 in the model, <=24 inputs in replays.",
    design_ref="DESIGN.md §5 C08, §4.8"),
+ "C07": dict(
+   engine="DagExec+DagTrace",
+   technique="TLA+ spec DagExec.tla model-checked by TLC over DAG shapes x schedulers (vacuity switches CreateFirst / DepRule); store get/set call-return records and callbacks of runs on the real executors validated by the TLA+ monitor DagTrace.tla",
+   text="TLC explores every interleaving of operation starts, task executions, chunk reads and writes for small plans and shows NoBadRead; every recorded run of generated programs on single-threaded / threads / processes executors x options, with write latency injected inside the store, is judged by the monitor: a data chunk of a produced array is read only after its producer's operation-end, which comes after the return of every write. A missing barrier is an ordering fact in the trace, not a lucky race.",
+   note="Trusted: TLC; CLOCK_MONOTONIC being system-wide (cross-process ordering of non-overlapping call/return intervals); the LocalStore wrapper seeing every store access (zarr LocalStore is the only store used locally). Bounds: plans <= 5 ops in the model; generated programs <= 6 steps in runs.",
+   design_ref="DESIGN.md §5 C07, §4.9"),
+ "C13": dict(
+   engine="DagExec+DagTrace",
+   technique="TLA+ spec DagExec.tla (EventsOk with duplicate/zombie executions) model-checked by TLC; callback streams, advertised num_tasks, task-iterable lengths and plan totals of real-executor runs validated by the TLA+ monitor DagTrace.tla",
+   text="The monitor checks on every recorded run: one compute-start first and one compute-end last, per operation one start before and one end after all its task-ends, delivered task count = advertised num_tasks = length of the task iterable, plan total = sum, every runnable operation ran. Programs include region stores, differently chunked targets, multi-output operators, multi-stage rechunks, scans, fused plans; executors x options.",
+   note="Trusted: TLC; the Callback API delivering events in the client thread (total order by per-process sequence number). Bounds as C07.",
+   design_ref="DESIGN.md §5 C13, §4.9"),
 }
 
 def build():
